@@ -102,6 +102,7 @@ include hs
 
 @[pres] theorem battrParse_step (attrs : Str) : Pres Step (battrParse rec env attrs) := by
   have hr := replaceInline_frame rec env hs
+  have hm := macrosRender_frame rec env hs
   step_start; unfold battrParse; wp_go
 
 theorem verifyMacroLine_frame (mt : Match) (r : Reader) : Pres Frame (verifyMacroLine rec env mt r) := by
